@@ -29,12 +29,9 @@ def run(prog, report, tier):
     meshrules.check_closure(prog, report)
     meshrules.check_vreuse(prog, report)
     meshrules.check_initial_wiring(prog, report)
-    stale.check_drivers(prog, report,
-                        only={'Mesh.refine', 'Mesh.uniform_refine',
-                              'Mesh.uniform_refine_space',
-                              'MeshParametrized.__init__', '<main>'})
+    stale.check_drivers(prog, report)
     stale.all_refine_loops_known(prog, report)
-    report.floor('R-stale', 7)
+    report.floor('R-stale', 13)
     report.assumptions.append(
         'user-supplied initial grids are strictly increasing (asserted by '
         'Element.__init__ at run time)')
